@@ -20,6 +20,7 @@ type c09model struct {
 	hs      []wire.BlockHeader
 	hashes  []bitcoin.Hash32
 	removed []bitcoin.Hash32 // hashes reverted away and not re-added
+	useNext func() bool      // add through AddNext (block processing path) instead of Add
 }
 
 func (m *c09model) tip() int { return len(m.hs) - 1 }
@@ -199,7 +200,24 @@ func (m *c09model) add(s *c09sut, salt *int) error {
 	prev := m.hashes[m.tip()]
 	hdr := wire.BlockHeader{Version: 1, PrevBlock: prev, MerkleRoot: dsha([]byte(fmt.Sprint("m", *salt))),
 		Timestamp: uint32(1500000000 + *salt), Bits: 0x1d00ffff, Nonce: uint32(*salt)}
-	if err := s.repo.Add(s.ctx, &hdr); err != nil {
+	if m.useNext != nil && m.useNext() {
+		// the path block processing takes: add only if it links to the tip
+		ok, err := s.repo.AddNext(s.ctx, &hdr)
+		if err != nil {
+			return err
+		}
+		if !ok {
+			return fmt.Errorf("AddNext refused a header whose previous hash is the tip (height %d)", m.tip())
+		}
+		// a header that does not link to the (new) tip is refused and changes nothing
+		if m.tip() >= 1 && *salt%3 == 0 {
+			stale := wire.BlockHeader{Version: 1, PrevBlock: m.hashes[m.tip()-1], MerkleRoot: dsha([]byte(fmt.Sprint("stale", *salt))),
+				Timestamp: uint32(1500000000 + *salt), Bits: 0x1d00ffff, Nonce: uint32(*salt)}
+			if ok, err := s.repo.AddNext(s.ctx, &stale); ok || err != nil {
+				return fmt.Errorf("AddNext accepted a header that does not link to the tip (ok=%v err=%v)", ok, err)
+			}
+		}
+	} else if err := s.repo.Add(s.ctx, &hdr); err != nil {
 		return err
 	}
 	m.hs = append(m.hs, hdr)
@@ -269,6 +287,15 @@ func runC09case(c *Ctx, withFaults bool) (string, string, string, string) {
 	}
 	g := mainNetGenesisHeader()
 	m := &c09model{hs: []wire.BlockHeader{g}, hashes: []bitcoin.Hash32{*g.BlockHash()}}
+	switch t.Choose(3) {
+	case 0: // headers arrive through Add (header sync before the start block)
+	case 1: // through AddNext (block processing)
+		m.useNext = func() bool { return true }
+		desc.WriteString("adds-via-AddNext; ")
+	default:
+		m.useNext = func() bool { return t.Bool(1, 2) }
+		desc.WriteString("adds-via-Add-or-AddNext; ")
+	}
 	salt := int(t.Choose(1 << 20))
 	// initial bulk
 	n0 := []int{0, 1, 3, 30, 997, 998, 999, 1000, 1001, 1002, 1500, 1998, 1999, 2000, 2001, 2500, 2999, 3000, 3001}[t.Choose(19)]
